@@ -117,7 +117,7 @@ static void run_until(int64_t t, int64_t (*extra_deadline)(void))
 			event_base_loop(B, EVLOOP_ONCE);
 			if (g_boundary) g_boundary();
 			if (now_us() != last) { last = now_us(); same = 0; }
-			else if (++same > 2000) { if (g_livelock && g_livelock()) same = 0; else die("loop spins without time advancing"); }
+			else if (++same > (g_livelock ? 2000 : 50000)) { if (g_livelock && g_livelock()) same = 0; else die("loop spins without time advancing"); }
 			if (++guard > 2000000) die("loop guard");
 		}
 	}
